@@ -151,6 +151,57 @@ func (c *call) HasUndefined() bool {
 		if strings.Index(c.Args[i].String(), "invalid type") >= 0 {
 			return true
 		}
+		if hasInvalid(c.Args[i], make(map[types.Type]bool)) {
+			return true
+		}
+	}
+	return false
+}
+
+// hasInvalid returns whether an unresolved type is part of typ.
+// A named type prints as its name, so the types it is declared with are visited as well.
+func hasInvalid(typ types.Type, visited map[types.Type]bool) bool {
+	if typ == nil {
+		return true
+	}
+	if visited[typ] {
+		return false
+	}
+	visited[typ] = true
+	switch t := typ.(type) {
+	case *types.Basic:
+		return t.Kind() == types.Invalid
+	case *types.Pointer:
+		return hasInvalid(t.Elem(), visited)
+	case *types.Slice:
+		return hasInvalid(t.Elem(), visited)
+	case *types.Array:
+		return hasInvalid(t.Elem(), visited)
+	case *types.Chan:
+		return hasInvalid(t.Elem(), visited)
+	case *types.Map:
+		return hasInvalid(t.Key(), visited) || hasInvalid(t.Elem(), visited)
+	case *types.Struct:
+		for i := 0; i < t.NumFields(); i++ {
+			if hasInvalid(t.Field(i).Type(), visited) {
+				return true
+			}
+		}
+		return false
+	case *types.Tuple:
+		for i := 0; i < t.Len(); i++ {
+			if hasInvalid(t.At(i).Type(), visited) {
+				return true
+			}
+		}
+		return false
+	case *types.Signature:
+		return hasInvalid(t.Params(), visited) || hasInvalid(t.Results(), visited)
+	case *types.Interface:
+		return false
+	}
+	if u := typ.Underlying(); u != typ {
+		return hasInvalid(u, visited)
 	}
 	return false
 }
